@@ -1,6 +1,7 @@
 import RPVerif.Model.Pipeline
 import RPVerif.Lemmas.Pipeline
 import RPVerif.Props.C06
+import RPVerif.Lemmas.Timeout
 
 /-!
 # C05 — Every submitted task ends in one final state that tells the truth
@@ -148,5 +149,52 @@ example : final { tmgrInFails := false, agentInFails := false, exec := .exit 0, 
                   agentOutFails := false, tmgrOutFails := false, hasTmgrOut := true } = .done := by decide
 example : (run { tmgrInFails := false, agentInFails := false, exec := .exit 3, stageOnError := true,
                  agentOutFails := false, tmgrOutFails := true, hasTmgrOut := true }).emits.getLast? = some .failed := by decide
+
+/-! ## CANCELED only if a timeout was requested: the executor's timeout watcher
+
+`Timeout.run` is every history of `handle_timeout` calls (`reg`), `task_startup_done` messages (`done`)
+and passes of the watcher loop (`pass`), at any times; it returns every `cancel_task` call of the watcher
+as (time, task). -/
+
+open RPVerif.Timeout in
+/-- **every cancellation by the watcher stems from a timeout the task asked for, and that timeout has run
+    out**: there is a nonzero startup or execution timeout `v` of this task, counted from its launch
+    (`handle_timeout`) or from a reported startup, with `t0 + v` before the time of the cancellation -/
+theorem C05_watcher_cancel_justified (hist : List (Nat × Ev)) (t u : Nat) (h : (t, u) ∈ (run {} hist).2) :
+    ∃ t0 v, v ≠ 0 ∧ t0 + v < t ∧
+      ((∃ st et, (t0, Ev.reg u st et) ∈ hist ∧ v = (if st ≠ 0 then st else et)) ∨ (t0, Ev.done u v) ∈ hist) := by
+  obtain ⟨ct, hlt, t0, v, hv, rfl, hsrc⟩ :=
+    run_justified hist {} hist (fun _ hx => hx) ⟨by simp, by simp⟩ t u h
+  exact ⟨t0, v, hv, hlt, hsrc⟩
+
+open RPVerif.Timeout in
+/-- a task that asked for no timeout at all is never cancelled by the watcher -/
+theorem C05_no_timeout_never_cancelled (hist : List (Nat × Ev)) (u : Nat)
+    (hreg : ∀ t0 st et, (t0, Ev.reg u st et) ∈ hist → st = 0 ∧ et = 0)
+    (hdone : ∀ t0 et, (t0, Ev.done u et) ∈ hist → et = 0) (t : Nat) :
+    (t, u) ∉ (run {} hist).2 := by
+  intro h
+  obtain ⟨t0, v, hv, _, hsrc⟩ := C05_watcher_cancel_justified hist t u h
+  rcases hsrc with ⟨st, et, hm, rfl⟩ | hm
+  · obtain ⟨rfl, rfl⟩ := hreg t0 st et hm
+    simp at hv
+  · exact hv (hdone t0 v hm)
+
+open RPVerif.Timeout in
+/-- **a reported startup replaces the startup deadline**: once a task without an execution timeout has
+    reported its startup, the watcher does not cancel it at its next pass, whenever that runs and whatever
+    other tasks register or report in between -/
+theorem C05_reported_startup_clears (w : TW) (t u : Nat) (hu : u ∉ w.gone)
+    (evs : List (Nat × Ev)) (hq : ∀ x ∈ evs, Quiet u x.2) (now : Nat) :
+    u ∉ (pass (run (startupDone w t u 0) evs).1 now).2 := by
+  obtain ⟨ys, h1, h2, _⟩ := run_quiet (startupDone w t u 0) u evs hq
+  apply pass_after_startup _ w.pending ys u now _ h2
+  rw [h1]
+  simp [startupDone, hu]
+
+/-- tests: a startup timeout of 3 with the startup reported at t=2 and no execution timeout - no
+    cancellation ever; without the report the task is cancelled at the first pass after t=4 -/
+example : (Timeout.run {} [(1, .reg 0 3 0), (2, .done 0 0), (9, .pass), (50, .pass)]).2 = [] := by decide
+example : (Timeout.run {} [(1, .reg 0 3 0), (4, .pass), (5, .pass), (9, .pass)]).2 = [(5, 0)] := by decide
 
 end RPVerif.C05
